@@ -17,6 +17,7 @@ import (
 	"encoding/pem"
 	"errors"
 	"fmt"
+	"regexp"
 	"strings"
 	"sync"
 	"time"
@@ -178,8 +179,9 @@ func (f *vxFaultStorage) arm(failAt int) {
 func (f *vxFaultStorage) disarm() (ops []string, fired bool) {
 	f.mu.Lock()
 	defer f.mu.Unlock()
-	f.armed = false
-	return f.log, f.fired
+	ops, fired = f.log, f.fired
+	f.armed, f.log, f.fired = false, nil, false
+	return ops, fired
 }
 
 func (f *vxFaultStorage) step(kind, key string) error {
@@ -249,4 +251,25 @@ func (f *vxFaultStorage) ListPage(ctx context.Context, prefix string, after stri
 
 func vxIsInjected(err error) bool {
 	return err != nil && strings.Contains(err.Error(), errVxFault.Error())
+}
+
+// rapid re-runs a failing case and accepts it (and shrinks it) only if the failure message is identical, so
+// messages must not contain values that differ from run to run: serial numbers, issuer/CRL ids, times.
+var (
+	vxReSerial = regexp.MustCompile(`\b([0-9a-fA-F]{2}[:-]){7,}[0-9a-fA-F]{2}\b`)
+	vxReUUID   = regexp.MustCompile(`\b[0-9a-f]{8}-[0-9a-f]{4}-[0-9a-f]{4}-[0-9a-f]{4}-[0-9a-f]{12}\b`)
+	vxReTime   = regexp.MustCompile(`\b\d{4}-\d{2}-\d{2}[T ]\d{2}:\d{2}:\d{2}(\.\d+)?( ?(Z|[+-]\d{2}:?\d{2})( [A-Z]{3,4})?( m=[+-][0-9.]+)?)?`)
+	vxReUnix   = regexp.MustCompile(`\b1[6-9]\d{8}\b`)
+	vxReBigHex = regexp.MustCompile(`\b[0-9a-f]{30,}\b`)
+	vxReBigDec = regexp.MustCompile(`\b\d{25,}\b`)
+)
+
+func vxStable(msg string) string {
+	msg = vxReTime.ReplaceAllString(msg, "<time>")
+	msg = vxReSerial.ReplaceAllString(msg, "<serial>")
+	msg = vxReUUID.ReplaceAllString(msg, "<id>")
+	msg = vxReUnix.ReplaceAllString(msg, "<unix-time>")
+	msg = vxReBigHex.ReplaceAllString(msg, "<hex>")
+	msg = vxReBigDec.ReplaceAllString(msg, "<number>")
+	return msg
 }
